@@ -15,6 +15,7 @@ must equal the model's (second opinion on the divergence).
 import os
 
 import numpy as np
+import pandas as pd
 
 from menelaus.data_drift.kdq_tree import KdqTreeBatch, KdqTreeStreaming
 
@@ -142,16 +143,60 @@ MENUS = {
 }
 
 
+# round 3 --------------------------------------------------------------------
+# "1dmix": integer batches (handed over as integer arrays when cfg["int_when_integral"]) mixed with float batches whose
+# values change leaf when truncated (1.7 | 1 around the split 1.5, 0.6 | 0 around 0.5, 2.6 | 2 around 2.5)
+MENUS["1dmix"] = [
+    [[0.0], [1.0], [2.0], [3.0]],
+    [[0.0], [1.7], [0.6], [3.0]],
+    [[3.0], [3.0], [3.0], [2.0], [3.0]],
+    [[0.6], [1.7], [2.6], [0.4], [1.4], [2.4]],
+    [[0.0], [0.0], [0.0], [1.0], [4.0], [4.0], [4.0]],
+]
+# "sizes": batches of 4, 16, 2, 12 and 3 rows: after a reference replacement the bootstrap sample size is the size of
+# the *current* reference, a factor 4-8 away from the previous one
+MENUS["sizes"] = [
+    [[0.0], [1.0], [2.0], [3.0]],
+    [[0.0]] * 2 + [[1.0]] * 2 + [[2.0]] * 6 + [[3.0]] * 6,
+    [[3.0], [3.0]],
+    [[float(i)] for i in (0, 0, 1, 1, 2, 2, 3, 3, 0, 3, 1, 2)],
+    [[0.0], [0.0], [3.0]],
+]
+DF_COLS = ["y", "x", "w"]  # deliberately not in alphabetical order: positions, not labels, define the axes
+
+
+def menu_dim(cfg):
+    return len(MENUS[cfg["menu"]][0][0])
+
+
+def encode(cfg, rows, pos, ctx):
+    """The rows (list of equal-length lists of floats) in the container / dtype the configuration asks for:
+    ndarray (default), DataFrame with the column labels DF_COLS, or alternating by position; integer dtype when
+    cfg["int_when_integral"] and every value is integral."""
+    a = np.array(rows, dtype=float)
+    if cfg.get("int_when_integral") and all(float(v).is_integer() for r in rows for v in r):
+        # integer-typed input interleaved with float input: the same numbers in another container dtype
+        a = a.astype(np.int64)
+        ctx.count("integer_typed_samples")
+    kind = cfg.get("container", "ndarray")
+    if kind == "alt":
+        kind = "df" if pos % 2 == 0 else "ndarray"
+    if kind == "df":
+        ctx.count("dataframe_inputs")
+        return pd.DataFrame(a, columns=DF_COLS[: a.shape[1]])
+    return a
+
+
 class BatchSys(System):
     name = "KdqTreeBatch"
 
     def init(self, cfg):
-        dim = 1 if cfg["menu"] == "1d" else 2
+        dim = menu_dim(cfg)
         kw = dict(alpha=cfg["alpha"], bootstrap_samples=cfg["B"], count_ubound=cfg["ub"])
         return {"det": KdqTreeBatch(**kw), "model": KdqBatchModel(dim=dim, **kw), "nset": 0}
 
     def alphabet(self, cfg, state, pos):
-        evs = [{"op": "update", "b": i} for i in range(5)]
+        evs = [{"op": "update", "b": i} for i in cfg.get("updates", range(5))]
         if state["nset"] < cfg.get("max_set_reference", 2):
             evs += [{"op": "set_reference", "b": i} for i in cfg.get("set_menu", (0, 2, 3))]
         return evs
@@ -162,7 +207,7 @@ class BatchSys(System):
     def step(self, cfg, state, ev, pos, ctx):
         det = state["det"]
         pts = MENUS[cfg["menu"]][ev["b"]]
-        X = np.array(pts, dtype=float)
+        X = encode(cfg, pts, pos, ctx) if ("container" in cfg or "int_when_integral" in cfg) else np.array(pts, dtype=float)
         seed = rng.seed_step(ctx.seed, cfg["id"], pos)
         try:
             if ev["op"] == "update":
@@ -216,6 +261,24 @@ class BatchSys(System):
             ctx.count("set_reference_events")
             if before.state == "drift":
                 ctx.count("set_reference_while_in_drift")
+            if state.get("last_op") == "set_reference":
+                ctx.count("set_reference_twice_in_a_row")
+        state["last_op"] = ev["op"]
+        if model.epochs > before.epochs and before.R is not None:
+            a, b = before.R.tree.ref[""], model.R.tree.ref[""]
+            if max(a, b) >= 4 * min(a, b):
+                ctx.count("reference_replaced_by_one_4x_larger_or_smaller")
+        if model.epochs > before.epochs:
+            if len(model.R.tree.leaves) == 1 and len(set(model.R.tree.points)) > 1:
+                ctx.count("single_leaf_reference_trees")
+            if cfg["alpha"] in (0, 1):
+                ctx.count("bounds_at_alpha_%g" % cfg["alpha"])
+            elif cfg["alpha"] * cfg["B"] <= 0.5:
+                ctx.count("bounds_with_alpha_times_samples_at_most_half")
+            if cfg["B"] <= 2:
+                ctx.count("bounds_from_%d_bootstrap_samples" % cfg["B"])
+        if isinstance(X, pd.DataFrame):
+            ctx.count("dataframe_batches")
         if model.R is not None and len(model.R.tree.leaves) >= 4:
             ctx.count("steps_on_trees_with_4plus_leaves")
         if model.exact_tie:
@@ -234,7 +297,7 @@ class StreamSys(System):
             window_size=cfg["w"], persistence=cfg["persistence"], alpha=cfg["alpha"],
             bootstrap_samples=cfg["B"], count_ubound=cfg["ub"],
         )
-        return {"det": KdqTreeStreaming(**kw), "model": KdqStreamModel(dim=1, **kw)}
+        return {"det": KdqTreeStreaming(**kw), "model": KdqStreamModel(dim=cfg.get("dim", 1), **kw)}
 
     def alphabet(self, cfg, state, pos):
         return list(cfg["values"])
@@ -244,13 +307,21 @@ class StreamSys(System):
 
     def step(self, cfg, state, ev, pos, ctx):
         det = state["det"]
-        x = float(ev)
+        if isinstance(ev, (list, tuple)):  # round 3: a row of cfg["dim"] features
+            row = tuple(float(v) for v in ev)
+            x = list(row)
+        else:
+            x = float(ev)
+            row = (x,)
         seed = rng.seed_step(ctx.seed, cfg["id"], pos)
-        arr = np.array([[x]])
-        if cfg.get("int_when_integral") and x == int(x):
-            # integer-typed samples interleaved with float ones: the same numbers in another container dtype
-            arr = np.array([[int(x)]])
-            ctx.count("integer_typed_samples")
+        if "container" in cfg or len(row) > 1:
+            arr = encode(cfg, [list(row)], pos, ctx)
+        else:
+            arr = np.array([[x]])
+            if cfg.get("int_when_integral") and x == int(x):
+                # integer-typed samples interleaved with float ones: the same numbers in another container dtype
+                arr = np.array([[int(x)]])
+                ctx.count("integer_typed_samples")
         try:
             det.update(arr)
         except Exception as e:
@@ -263,7 +334,7 @@ class StreamSys(System):
         try:
             model, exp, ok = lockstep(
                 before,
-                lambda m, D: m.step((x,), D, shape, seed),
+                lambda m, D: m.step(row, D, shape, seed),
                 lambda e: not diff_keys(e, obs),
                 stats=ctx.stats,
             )
@@ -300,6 +371,28 @@ class StreamSys(System):
                 ctx.count("drifts_in_third_or_later_epoch")
         if model.R is not None and before.R is None:
             ctx.count("reference_windows_completed")
+            if len(model.R.tree.leaves) == 1 and len(set(model.R.tree.points)) > 1:
+                ctx.count("single_leaf_reference_trees")
+            if cfg["alpha"] in (0, 1):
+                ctx.count("bounds_at_alpha_%g" % cfg["alpha"])
+            elif cfg["alpha"] * cfg["B"] <= 0.5:
+                ctx.count("bounds_with_alpha_times_samples_at_most_half")
+            if cfg["B"] <= 2:
+                ctx.count("bounds_from_%d_bootstrap_samples" % cfg["B"])
+            if len(row) > 1 and len({a for a, _ in model.R.tree.splits.values()}) > 1:
+                ctx.count("reference_trees_splitting_both_features")
+        if len(row) > 1:
+            ctx.count("two_feature_samples")
+            if obs["state"] == "drift":
+                ctx.count("drifts_on_two_feature_streams")
+        if cfg["w"] == 1:
+            ctx.count("steps_with_window_size_1")
+        if model.d is not None and model.R is not None and model.trail != before.trail:
+            pw = model.persistence * model.w
+            if pw >= model.w:
+                ctx.count("evaluations_with_persistence_at_least_1")
+            if pw > 0 and float(pw).is_integer() and model.run == pw:
+                ctx.count("runs_exactly_at_an_integer_persistence_bound")
         if model.exact_tie:
             ctx.mark("divergence_exactly_at_bound" if model.d > 0 else "divergence_and_bound_both_zero")
         if model.trail.endswith("a") and "ab" in model.trail[:-1]:
@@ -311,7 +404,58 @@ class StreamSys(System):
         return obs
 
 
+class MultiSys(System):
+    """Several kdq-tree detectors alive in one process, called in an interleaved schedule (round 3).  Every member is
+    judged by its own lock-step model exactly as when it runs alone; after every call the public observables of all the
+    *other* members must be what they were (no state shared between detector objects)."""
+
+    name = "KdqTreeInterleaved"
+
+    def _members(self, cfg):
+        out = []
+        for i, m in enumerate(cfg["members"]):
+            mc = dict(m)
+            mc["id"] = "%s/m%d" % (cfg["id"], i)
+            out.append((SYSTEMS[m["system"]], mc))
+        return out
+
+    def init(self, cfg):
+        return {"members": [sysm.init(mc) for sysm, mc in self._members(cfg)], "last": [None] * len(cfg["members"])}
+
+    def alphabet(self, cfg, state, pos):
+        k = cfg["schedule"][pos % len(cfg["schedule"])]
+        sysm, mc = self._members(cfg)[k]
+        return [{"k": k, "ev": e} for e in sysm.alphabet(mc, state["members"][k], pos)]
+
+    def key(self, cfg, state, pos):
+        return tuple(sysm.key(mc, st, pos) for (sysm, mc), st in zip(self._members(cfg), state["members"]))
+
+    def step(self, cfg, state, ev, pos, ctx):
+        members = self._members(cfg)
+        k = ev["k"]
+        sysm, mc = members[k]
+        obs = sysm.step(mc, state["members"][k], ev["ev"], pos, ctx)
+        state["last"][k] = obs
+        ctx.count("interleaved_calls")
+        if sum(1 for o in state["last"] if o is not None) >= 3:
+            ctx.count("interleaved_calls_with_3_detectors_in_use")
+        for j, ((sj, mj), st) in enumerate(zip(members, state["members"])):
+            if j == k or state["last"][j] is None:
+                continue
+            now = batch_obs(st["det"]) if sj.name == "KdqTreeBatch" else stream_obs(st["det"])
+            if diff_keys(state["last"][j], now):
+                raise Violation(
+                    "cross-detector",
+                    "a call on detector %d (%s) at step %d changed what detector %d (%s) reports: %r -> %r"
+                    % (k, sysm.name, pos, j, sj.name, state["last"][j], now),
+                    expected=state["last"][j],
+                    observed=now,
+                )
+        return {"k": k, "obs": obs}
+
+
 SYSTEMS = {"KdqTreeBatch": BatchSys(), "KdqTreeStreaming": StreamSys()}
+SYSTEMS["KdqTreeInterleaved"] = MultiSys()
 
 
 # ------------------------------------------------------------------- tasks
@@ -343,8 +487,95 @@ def _batch_cfgs(tier):
     return out
 
 
-def tasks(tier, seed):
+def _round3_tasks(tier):
+    """Round-3 families (EXTENDING.md): values, containers and parameter regions outside the round-1/2 alphabets."""
+    q = tier == "quick"
     out = []
+
+    def batch(cid, menu, depth, ub=1, alpha=0.3, B=10, updates=(0, 1, 2, 3, 4), set_menu=(0,), max_set=1, cost=1, **kw):
+        cfg = {"id": "r3b-" + cid, "menu": menu, "ub": ub, "alpha": alpha, "B": B, "max_set_reference": max_set,
+               "set_menu": list(set_menu), "updates": list(updates)}
+        cfg.update(kw)
+        firsts = [{"op": "update", "b": i} for i in updates] + [{"op": "set_reference", "b": i} for i in set_menu]
+        for f in firsts:
+            out.append({"system": "KdqTreeBatch", "cfg": cfg, "prefix": [f], "depth": depth - 1, "validate_every": 101,
+                        "label": "KdqTreeBatch|%s|%s%d" % (cfg["id"], f["op"][0], f["b"]), "cost": cost})
+
+    def stream(cid, w, values, depth, persistence=0, alpha=0.6, B=10, ub=1, cost=5, **kw):
+        cfg = {"id": "r3s-" + cid, "w": w, "persistence": persistence, "alpha": alpha, "B": B, "ub": ub,
+               "values": values}
+        cfg.update(kw)
+        for first in values:
+            out.append({"system": "KdqTreeStreaming", "cfg": cfg, "prefix": [first], "depth": depth - 1,
+                        "validate_every": 101, "label": "KdqTreeStreaming|%s|%s" % (cfg["id"], first), "cost": cost})
+        return cfg
+
+    d = 0 if q else 1  # thorough: one more event everywhere
+    # --- batch ---------------------------------------------------------------------------------------------------
+    # integer-typed batches mixed with float batches (generalises the mixed-dtype streaming family)
+    batch("mixed-dtype", "1dmix", 4 + d, updates=(0, 1, 2, 3), set_menu=(1,), int_when_integral=True)
+    # DataFrame batches (two features; all DataFrames / DataFrames alternating with arrays)
+    batch("df-2d", "2d", 4 + d, updates=(0, 1, 2, 4), set_menu=(3,), container="df", alpha=0.6)
+    batch("alt-2d", "2d", 3 + d, updates=(0, 1, 2, 4), set_menu=(3,), container="alt", ub=2)
+    # batches of very different sizes: the bootstrap sample size follows the current reference
+    batch("sizes", "sizes", 4 + d, set_menu=(1,), alpha=0.3, cost=2)
+    # alpha 0 / 1 / alpha * bootstrap_samples <= 1/2; 1 and 2 bootstrap samples
+    for alpha, B in ((0, 10), (1, 10), (0.04, 10), (0.05, 10), (0.3, 1), (0.5, 2), (0, 1), (1, 2)):
+        batch("a%g-B%d" % (alpha, B), "1d", 3 + d, alpha=alpha, B=B, cost=0.3)
+    # count_ubound so large that the tree is a single leaf: divergence identically 0
+    batch("single-leaf-1d", "1d", 3 + d, ub=100, alpha=0.6, cost=0.3)
+    batch("single-leaf-2d", "2d", 3 + d, ub=100, alpha=0.01, container="df", cost=0.3)
+    # set_reference twice in a row, right after a drift, as first call, after an update without reference
+    batch("set-ref", "1d", 4 + d, updates=(0, 2, 3), set_menu=(0, 2, 3), max_set=3, alpha=0.6)
+    # --- streaming ----------------------------------------------------------------------------------------------
+    two = [[0, 0], [5, 0], [0, 5]]
+    stream("2d-w2-p0", 2, two, 10 + d, dim=2)
+    stream("2d-w2-p.5", 2, two, 10 + d, dim=2, persistence=0.5, alpha=0.3, full_df=True)
+    stream("2d-df-w2", 2, two, 9 + d, dim=2, container="df", persistence=0.5)
+    stream("2d-alt-w2", 2, [[0, 0], [5, 1], [1.5, 5]], 8 + d, dim=2, container="alt", int_when_integral=True)
+    stream("1d-df-w2", 2, [0, 1, 5], 9 + d, container="df", persistence=0.5)
+    for w in (3,):
+        cfg = {"id": "r3s-2d-w%d-dev" % w, "w": w, "persistence": 0.3, "alpha": 0.6, "B": 10, "ub": 1, "dim": 2,
+               "values": [[0, 0], [1, 1], [5, 0], [0, 5]], "container": "df"}
+        default = [[0, 0], [1, 1], [5, 0], [0, 0], [1, 1], [5, 0], [0, 5], [0, 5], [0, 0], [1, 1], [0, 0], [1, 1], [5, 0], [0, 5],
+                   [0, 5], [0, 5], [0, 0], [1, 1], [5, 0], [1, 1], [0, 0], [5, 0], [0, 0], [0, 0]]
+        out.append({"system": "KdqTreeStreaming", "cfg": cfg, "mode": "dev", "default": default, "menu": cfg["values"],
+                    "k": 1 if q else 2, "validate_every": 53, "label": "KdqTreeStreaming|%s|dev" % cfg["id"], "cost": 20})
+    # window_size 1 (the reference is one sample: a single leaf, divergence and bound identically 0)
+    stream("w1-p0", 1, [0, 1, 5], 6 + d, cost=0.3)
+    stream("w1-p1", 1, [0, 1, 5], 6 + d, persistence=1, alpha=0.3, cost=0.3)
+    stream("w1-2d", 1, two, 5 + d, dim=2, container="alt", cost=0.3)
+    # persistence >= 1 (more than window_size samples in a row) and exactly at an integer multiple
+    stream("w2-p1.5", 2, [0, 1, 5], 11 + d, persistence=1.5, cost=8)
+    stream("w3-p1", 3, [0, 5], 13 + d, persistence=1, alpha=0.3, cost=4)
+    stream("w4-p.25", 4, [0, 5], 12 + d, persistence=0.25, cost=4)
+    # alpha 0 / 1 / alpha * bootstrap_samples <= 1/2; 1 and 2 bootstrap samples
+    for alpha, B in ((0, 10), (1, 10), (0.04, 10), (0.6, 1), (0.5, 2), (1, 1)):
+        stream("w2-a%g-B%d" % (alpha, B), 2, [0, 1, 5], 9 + d, persistence=0.5, alpha=alpha, B=B, cost=1)
+    # count_ubound so large that the tree is a single leaf
+    stream("single-leaf", 3, [0, 1, 5], 8 + d, ub=100, cost=0.5)
+    # --- several detectors alive in one process, interleaved call by call -----------------------------------------
+    sA = {"system": "KdqTreeStreaming", "w": 2, "persistence": 0, "alpha": 0.6, "B": 10, "ub": 1, "values": [0, 5]}
+    sB = {"system": "KdqTreeStreaming", "w": 2, "persistence": 0.5, "alpha": 0.3, "B": 10, "ub": 1, "values": [1, 5]}
+    bC = {"system": "KdqTreeBatch", "menu": "1d", "ub": 1, "alpha": 0.3, "B": 10, "max_set_reference": 0, "updates": [0, 2]}
+    bD = {"system": "KdqTreeBatch", "menu": "2d", "ub": 1, "alpha": 0.6, "B": 10, "max_set_reference": 1, "updates": [0, 2],
+          "set_menu": [3], "container": "df"}
+    for cid, members, schedule, depth in (
+        ("ss", [sA, sB], [0, 1], 12 + d),
+        ("sb", [sA, bC], [0, 1, 0], 10 + d),
+        ("ssb", [sA, sB, bC], [0, 1, 2, 1, 0, 2], 11 + d),
+        ("bb", [bC, bD], [0, 1], 8 + d),
+    ):
+        cfg = {"id": "r3m-" + cid, "members": members, "schedule": schedule}
+        msys = SYSTEMS["KdqTreeInterleaved"]
+        for f in msys.alphabet(cfg, msys.init(cfg), 0):
+            out.append({"system": "KdqTreeInterleaved", "cfg": cfg, "prefix": [f], "depth": depth - 1,
+                        "validate_every": 101, "label": "KdqTreeInterleaved|%s|%s" % (cfg["id"], f["ev"]), "cost": 6})
+    return out
+
+
+def tasks(tier, seed):
+    out = _round3_tasks(tier)
     # batch: one task per (configuration, first event)
     for menu, ub, alpha, B, depth in _batch_cfgs(tier):
         cfg = {"id": "b-%s-ub%d-a%g-B%d" % (menu, ub, alpha, B), "menu": menu, "ub": ub, "alpha": alpha, "B": B,
